@@ -7,6 +7,7 @@ CONSTANTS
   P = 1
   W = 1
   Strict = TRUE
+  StrictHeal = FALSE
   PortOps <- AllOps
   OpPorts <- AllOpPorts
   Fresh <- AnyFresh
